@@ -13,7 +13,7 @@ from streams.cluster import hx
 
 NO_MODEL = True
 HEADER = 3
-REQUIRED_SHAPES = ["join", "leave", "stacked_handovers", "read_with_previous_owner", "delete_with_previous_owner", "overwrite_with_previous_owner", "between_table_moves",
+REQUIRED_SHAPES = ["write_during_routing_update", "join", "leave", "stacked_handovers", "read_with_previous_owner", "delete_with_previous_owner", "overwrite_with_previous_owner", "between_table_moves",
                    "stable_all_members_read", "exactly_once_primary", "backups_kept", "prefixed_dmap_name"]
 DMS = ["dm", "dmap.x", "x"]
 
@@ -49,6 +49,26 @@ class Oracle:
             self.handover = True
             self.hit("join")
             return None
+        if name == "c.inter":
+            # a member joins; inside the coordinator's routing update - the new table is computed, not yet pushed - a Put
+            sep = a.index("--")
+            head = reply.split()[0]
+            if head == "not-converged":
+                return None
+            self.alive.add(int(head.split("_")[1]))
+            if self.handover:
+                self.hit("stacked_handovers")
+            self.handover = True
+            self.hit("join")
+            inner = a[sep + 1:]
+            st = reply.split("inner=")[1]
+            if st == "-":
+                return None        # the update had been computed before the point was armed
+            if st.endswith(":ok"):
+                self.exp[(inner[3], inner[4])] = inner[5]
+                self.hit("write_during_routing_update")
+                return None
+            return "a Put issued while the coordinator was updating the routing table failed: %s" % st
         if name == "c.stop":
             self.alive.discard(int(a[0]))
             self.handover = True
@@ -100,11 +120,14 @@ class Oracle:
             if name == "c.scanall" and len(set(got)) != len(got):
                 return "the client iterator over %s yielded a key twice: %s" % (dm, sorted(got)[:12])
             extra, missing = sorted(set(got) - live), sorted(live - set(got))
-            if self.handover or name == "c.rawscan":
-                # while tables are on the move a key may be met on neither side of one pass (C12 is about stable membership);
-                # the raw walk of the harness asks the primary owner's primary copies only: after a leave a key may live on the
-                # promoted member's backup fragment, which the client iterator reads (RC) and this walk does not
+            if name == "c.rawscan" or (self.handover and self.left):
+                # the raw walk of the harness asks the primary owner's primary copies only: during a hand-over the previous
+                # owner still holds keys, and after a leave a key may live on the promoted member's backup fragment, which
+                # the client iterator reads (RC) and this walk does not.  The client iterator, between two balancer passes
+                # after JOINS only, walks every primary owner of a partition - the previous ones too - and misses nothing
                 missing = []
+            elif self.handover:
+                self.hit("complete_iteration_with_previous_owner")
             if extra or missing:
                 return "a full iteration over %s (%s) yielded %d keys: deleted / foreign keys %s, missing keys %s" % (
                     dm, "client iterator" if name == "c.scanall" else "raw DM.SCAN cursors", len(got), extra[:8], missing[:8])
@@ -179,9 +202,46 @@ class Gen:
         for d in DMS:
             yield "wb.baks %s" % d
 
+    def sparse(self, orc):
+        """directed: an almost empty cluster (most partitions hold nothing anywhere, so nobody is kept as their previous
+        owner); members join one after the other, and while the coordinator is between computing a table and pushing it, a
+        key nobody has written yet is Put through some member.  Whoever stored it: every member reads it afterwards -
+        without a second push by hand and without a balancer pass - and after stabilisation."""
+        r = self.rng
+        n0, R = r.choice([1, 1, 2]), r.choice([1, 1, 2])
+        yield "watchdog 300s"
+        yield "clock 0"
+        yield "c.new n=%d r=%d w=1 rq=1 rr=0 parts=%d tsize=512" % (n0, R, r.choice([7, 11, 13]))
+        alive = list(range(n0))
+        keys = []
+        for j in range(r.choice([3, 4])):
+            d, key, val = r.choice(DMS), hx(b"d%d" % j), hx(b"u%d" % j)
+            rep = yield "c.inter routing.computed c.addconv -- c.put emb %d %s %s %s" % (r.choice(alive), d, key, val)
+            if rep.startswith("not-converged"):
+                return
+            alive.append(len(alive))
+            keys.append((d, key))
+            for (d2, k2) in keys:
+                for m in alive:
+                    yield "c.get emb %d %s %s" % (m, d2, k2)
+            if r.random() < 0.5:
+                yield "c.scanall emb %d %s * %d" % (r.choice(alive), d, r.choice([1, 100]))
+        rep = yield "c.settle"
+        if not rep.startswith("ok"):
+            return
+        yield "wb.frags"
+        for d, key in keys:
+            for m in alive:
+                yield "c.get emb %d %s %s" % (m, d, key)
+        for d in DMS:
+            yield "wb.keys %s" % d
+
     def episode(self, orc, nops):
         if getattr(self, "ep", 0) % 4 == 3:
             yield from self.unreachable_receiver(orc)
+            return
+        if getattr(self, "ep", 0) % 4 == 1:
+            yield from self.sparse(orc)
             return
         r = self.rng
         R = r.choice([1, 2, 2, 3])
@@ -216,8 +276,19 @@ class Gen:
             yield op
         for _ in range(nops or 3):
             x = r.random()
+            during = None
             if x < 0.7 and len(alive) < min(5, parts):
-                yield "c.add nosync"
+                if r.random() < 0.5:
+                    # the join, with a Put of a key nobody has written yet (its partition may be empty everywhere) while the
+                    # coordinator is between computing the new table and pushing it
+                    ver[0] += 1
+                    during = (r.choice(DMS), hx(b"d%d" % ver[0]))
+                    keys.append(during)
+                    rep = yield "c.inter routing.computed c.addconv -- c.put emb %d %s %s %s" % (r.choice(alive), during[0], during[1], hx(b"u%d" % ver[0]))
+                    if rep.startswith("not-converged"):
+                        return
+                else:
+                    yield "c.add nosync"
                 alive.append(total)
                 total += 1
             elif R >= 2 and len(alive) > R and n0 >= R and not orc.left:
@@ -231,6 +302,10 @@ class Gen:
             rep = yield "c.converge"
             if rep == "not-converged":
                 return
+            if during:
+                # no second push by hand, no balancer pass: whoever holds the key is in every member's owners list
+                for m in alive:
+                    yield "c.get emb %d %s %s" % (m, during[0], during[1])
             yield "c.update"
             if r.random() < 0.45 and len(alive) < min(5, parts):
                 # a second hand-over stacked on the first: nothing has moved yet, keys are overwritten on the new owner
@@ -252,6 +327,9 @@ class Gen:
             # previous owners still hold everything: reads, overwrites, deletes from every member
             for op in op_mix(10):
                 yield op
+            # ... and a full iteration from any member: nothing has moved, the keys are where the routing table's list of
+            # previous owners says
+            yield "c.scanall emb %d %s * %d" % (r.choice(alive), r.choice(DMS), r.choice([1, 3, 100]))
             # overwrite / read (read-repair meets a previous owner with an older version) / delete / routing update / read
             for d, key in r.sample(keys, 3):
                 ver[0] += 1
@@ -290,5 +368,7 @@ class Gen:
             for d in DMS:
                 yield "wb.keys %s" % d
             for d in DMS:
-                yield "c.scanall %s %d %s * %d" % (r.choice(["emb", "cli"]), r.choice(alive), d, r.choice([1, 2, 10]))
+                # (embedded clients only: a cluster client created before a member left keeps its connection pool and its copy
+                # of the routing table for a while - its errors are not the cluster's)
+                yield "c.scanall emb %d %s * %d" % (r.choice(alive), d, r.choice([1, 2, 10]))
                 yield "c.rawscan %s * %d" % (d, r.choice([1, 2, 10]))
